@@ -20,6 +20,10 @@ def _mid(a, b):
   return (a + b) / 2 if isinstance(a, float) or isinstance(b, float) else (a + b) // 2
 
 
+def _plus_half(v):
+  return v + 0.5
+
+
 class Conc:
   """maps positions 0..10 to concrete numbers; limits are the odd positions"""
 
@@ -66,6 +70,9 @@ CONCS = [
     Conc('str-limits-type-float', [10, 20, 30, 40, 50], 5, 55, as_type=float, wrap=str),
     Conc('str-limits-type-int', [10, 20, 30, 40, 50], 0, 60, as_type=int, wrap=str),
     Conc('mixed-int-float', [1, 2.0, 3, 4.5, 5], 0.5, 5.5),
+    # numeric limits that the declared converter changes (int() truncates x.5 to x): "limits are converted with
+    # the declared type before comparing" also when they are numbers already
+    Conc('float-limits-type-int', [10, 20, 30, 40, 50], 5, 55, as_type=int, wrap=_plus_half),
 ]
 
 
